@@ -4,5 +4,5 @@ f=$1; n=$2
 tmp=$(mktemp /tmp/goalXXXXXX.v)
 head -n "$n" "$f" > "$tmp"
 echo "Show." >> "$tmp"
-cd /verif/coq && timeout 300 coqtop -Q theories Wharf -batch -l "$tmp" 2>&1 | tail -${3:-40}
+cd "$(dirname "$0")/../coq" && timeout 300 coqtop -Q theories Wharf -batch -l "$tmp" 2>&1 | tail -${3:-40}
 rm -f "$tmp"
